@@ -18,6 +18,12 @@ Proof.
   repeat match goal with |- context[(?x <? ?y)%Z] => destruct (Z.ltb_spec x y) end; simpl; try reflexivity; lia.
 Qed.
 
+Lemma predraw_spec a m : predraw a m = (m <? a).
+Proof.
+  unfold predraw, pre_draw_wait. cbn [negb andb].
+  destruct (Nat.ltb_spec m a), (Z.ltb_spec (Z.of_nat m) (Z.of_nat a)); try reflexivity; lia.
+Qed.
+
 Lemma map_to_of (l : list nat) : map Z.to_nat (map Z.of_nat l) = l.
 Proof. induction l as [|x l IH]; simpl; [reflexivity|]. rewrite Nat2Z.id, IH. reflexivity. Qed.
 
@@ -82,4 +88,4 @@ Lemma reset_results_spec :
   ["self._results_added[worker_id] = 0"; "self._results_received[worker_id] = 0"]%string.
 Proof. reflexivity. Qed.
 
-Global Opaque blocked choose alive_guard wants_restart exit_pill must_wait exhausted.
+Global Opaque predraw blocked choose alive_guard wants_restart exit_pill must_wait exhausted.
